@@ -878,3 +878,22 @@ PROPS.update({
                       "'tess-tolerance-coarse' report was a measurement error of the harness (half-period tie), corrected",
     },
 })
+
+# ---------------------------------------------------------------------------------------------------------------------
+# Session-3 updates.  The texts above were written when the respective statements were hypotheses; where a later package
+# proved (or refuted and repaired) them, the FIRST trusted_base entry of the property says so — it supersedes any
+# older sentence below it that still calls the statement "assumed" / "not proved".
+_S3 = {
+ "C01": "UPDATE: the float margin of Cell.ContainsPoint (after repair D46) and the float cross-face wrap are PROVED (C12_Margin.lean, C01_Wrap.lean); open: AllNeighbors completeness at face boundaries.",
+ "C02": "UPDATE: sos_global is proved (C02_Global / C02_Chirotope); the triage / stable / dot-product error constants are proved (C02_TriageError, C02_StableError, C02_DotProdError); the distance cascade is proved exact on Normalize outputs after repair D54 (C02_DistanceExact: compareDistances_exact, compareDistance_exact for 0 <= r2 <= 4).",
+ "C03": "UPDATE: FloatSound is no longer a hypothesis: after repair D48 FullExactness is a THEOREM for all unit-ish finite points incl. +-0 coordinates (C03_FloatSound, C03_AllZeros: fullExactness); SignLaws are theorems of C02.",
+ "C04": "UPDATE: ParityCocycle is a THEOREM for the exact geometry incl. shared vertices and +-0 twins (C04_Cocycle, C04_AllZeros); constructor / rotation / reversal theorems for all valid loops and parity theorems for tilings (C04_Tiling); CellLoopsTile 'exactly once' still needs the convexity fact count <= 2.",
+ "C06": "UPDATE: the index construction is modelled bit-exactly and regenerated; I1 of the built index is PROVED for real uv geometry from the float error analysis of the clipping (C06_ClipFloat: build_I1_float, only FaceEdgesOK left); I3 and 'queries on the built index = brute force' under three named statements of exact geometry (C06_BuildI3), for cells with -0 coordinates too (C06_AllZeros).",
+ "C07": "UPDATE: the two-index walk is modelled and regenerated; its raw boolean = exact crossing or wedge witness or centre shortcut (C07_WalkSound: walk_hasCrossingRelation_eq_exact); compareBoundary walk = exact relation in full; contains / intersects under the single necessary hypothesis CenterSound.",
+ "C08": "UPDATE: for a point target the search theorems hold with NO abstract WorldOK at an explicit slack 2^-44 (C08_World: point_single, point_multi, point_multi_vs_bruteforce), from C12 distance_lower_bound, the C17 edge contract and I1; WorldOK / CellLB as first stated are FALSE of the real code (clipped far edges; limit-dependent edge value) and were replaced by the true SlackWorld.",
+ "C12": "UPDATE: the ContainsPoint margin is proved (C12_Margin, after repair D46); point-target Distance lower bound 2^-45, MaxDistance upper bound 2^-44 and ATTAINED (all branches, no proviso, after repair D58) are proved for all valid cells and unit-ish points (C12_Distance).",
+ "C15": "UPDATE: decoded values are PROVED safe to query through the Shape accessors and to re-encode (C15_Usable: decodePolygon_usable, reencode_succeeds).",
+ "C17": "UPDATE: vertex / interior / prefilter error bounds are PROVED on UnitPt / EdgeOK, two-sided under the wedge margin (C17_Error); edge-pair minimum and max-through-antipode proved in exact geometry, float glue partial (C17_Pairs, C17_PairsFloat); known finding D57: MaxPointError is not a bound for all Normalize outputs.",
+}
+for _k, _t in _S3.items():
+    PROPS[_k]["trusted_base"] = [_t] + list(PROPS[_k].get("trusted_base", []))
